@@ -24,6 +24,7 @@ EXPLANATION = ("Decides the structural clauses a-d of C13 on every path of strea
                "agreeing with the decision returned; add_event pushes the event exactly once on on-time/Process/Recompute "
                "paths and never on Drop/SideOutput paths; the generator advances only on the on-time path.")
 FLOORS = {"stores_current_watermark": 1, "stores_max_timestamp": 1, "late_paths": 5, "add_event_paths": 5}
+EXPLANATION += ' c is decided by meaning: both is_late functions are inlined through their helpers (inline_sym) and brought to a canonical comparison (canon_cmp); required: event timestamp < watermark timestamp, strict.'
 
 WG = "streaming::watermark::WatermarkGenerator"
 LH = "streaming::watermark::LateDataHandler"
